@@ -277,6 +277,8 @@ func c01(r *core.Run) {
 	}
 	spanCodec(r, "C01.S1")
 	feederRules(r, "C01")
+	hashtrieRules(r, "C01")
+	stageRules(r, "C01")
 }
 
 // spanCodec checks every binary.<order> Uint64/PutUint64 site of the file-format packages.
@@ -403,6 +405,7 @@ func c02(r *core.Run) {
 	}
 	spanCodec(r, "C02.S1")
 	feederRules(r, "C02")
+	hashtrieRules(r, "C02")
 }
 
 func c03(r *core.Run) {
